@@ -689,7 +689,11 @@ func (e *Entry) DecodeEventDataCtx(ctx context.Context, topics []ethtypes.HexByt
 	}
 	inputTypes := typeTree.TupleChildren()
 	topicIdx := 0
-	if !e.Anonymous && len(topics) >= 1 {
+	if !e.Anonymous {
+		if len(topics) < 1 {
+			// A non-anonymous event always carries its signature hash as the first topic
+			return nil, i18n.NewError(ctx, signermsgs.MsgEventsInsufficientTopics, 0, e)
+		}
 		sigHashBytes := e.SignatureHashBytes()
 		if !bytes.Equal(topics[0], sigHashBytes) {
 			return nil, i18n.NewError(ctx, signermsgs.MsgEventSignatureMismatch, e, topics[0], sigHashBytes)
